@@ -18,7 +18,7 @@ import (
 // C04 — tampered, mis-addressed or foreign-database entries are never merged.
 
 var c04Fields = []string{"payload", "clock.time", "clock.id", "next.add", "next.drop", "refs.add", "key.other", "key.garbage", "sig.flip", "sig.empty",
-	"identity.id", "identity.publicKey", "identity.sig.id", "identity.sig.publicKey", "identity.type", "logid", "logid.slash", "logid.noprefix", "logid.dot", "logid.case", "v", "hash", "hash.raw", "sibling"}
+	"identity.id", "identity.id.nonwriter", "identity.publicKey", "identity.sig.id", "identity.sig.publicKey", "identity.type", "logid", "logid.slash", "logid.noprefix", "logid.dot", "logid.case", "v", "hash", "hash.raw", "sibling"}
 
 type CaseC04 struct {
 	Type    string     `json:"type"`
@@ -182,6 +182,11 @@ func execC04(c CaseC04) *Outcome {
 	case "identity.id":
 		m.Identity = copyIdentity(m.Identity)
 		m.Identity.ID = world.IdentityID(cl.W.Peers[env.V].Slot) // another authorised id
+	case "identity.id.nonwriter":
+		// the id of an identity without write access, everything else (public key, signatures) the author's own:
+		// whatever the store has learnt about the author's key must not vouch for this id
+		m.Identity = copyIdentity(m.Identity)
+		m.Identity.ID = attackerID.ID
 	case "identity.publicKey":
 		m.Identity = copyIdentity(m.Identity)
 		m.Identity.PublicKey = append([]byte{}, attackerID.PublicKey...)
@@ -244,8 +249,9 @@ func execC04(c CaseC04) *Outcome {
 	hashBad := !claimed.Equals(real)
 	sigBad := !env.sigOK(m)
 	logBad := m.LogID != cl.Addr
-	bad := hashBad || sigBad || logBad
-	desc := fmt.Sprintf("field %s mutated, form %s (hash mismatch %v, bad signature %v, wrong log id %v)", c.Field, form, hashBad, sigBad, logBad)
+	idBad := c.Field == "identity.id.nonwriter" // the identity block names an id that has no write access
+	bad := hashBad || sigBad || logBad || idBad
+	desc := fmt.Sprintf("field %s mutated, form %s (hash mismatch %v, bad signature %v, wrong log id %v, id without write access %v)", c.Field, form, hashBad, sigBad, logBad, idBad)
 	if bad {
 		// an address is hostile only if no honest entry lives there; content smuggled in under an
 		// honest address is caught by victimClean's content comparison
